@@ -112,6 +112,13 @@ def cases(tier, seed, i, n):
                 for ctrl in (None, 'ping'):
                     yield dict(kind='e2e', p=pl, cuts=cuts, ctrl=ctrl, seg='perframe', z=False)
                 yield dict(kind='e2e', p=pl, cuts=cuts, ctrl=None, seg='coalesced', z=False)
+        # fail fast, with reads of every size: a code point is cut by a read (or fragment) boundary, the offending byte
+        # arrives at the front of the NEXT read - 1 .. 70000 bytes of plain ASCII - and the rest of the message never
+        # comes: the error is due with that read
+        for head, what in ((b'\xc3', 'lead-then-ascii'), (b'\xe2\x82', 'two-of-three-then-ascii'), (b'ok \xf0\x9f\x98', 'three-of-four-then-ascii')):
+            for n2 in (1, 2, 100, 512, 1023, 1024, 1025, 4000, 4096, 16384, 65000, 70000):
+                for frag in (False, True):
+                    yield dict(kind='withheld', head=head, n2=n2, frag=frag, what=what)
         rnd = random.Random(seed * 131 + 9)
         for pi, p in enumerate(all_payloads(tier, seed)):
             L = len(p)
@@ -142,7 +149,37 @@ def cases(tier, seed, i, n):
     return gen.shard(allcases(), i, n)
 
 
+def run_withheld(case, acc):
+    head, n2 = case['head'], case['n2']
+    body2 = (b'plain ascii, nothing else. ' * (n2 // 27 + 1))[:n2]
+    if case['frag']:
+        # the code point is cut by a fragment boundary; the second fragment declares more than ever arrives
+        part1 = refws.enc_header(1, len(head), fin=0) + head
+        part2 = refws.enc_header(0, n2 + 5000, fin=1) + body2
+    else:
+        part1 = refws.enc_header(1, len(head) + n2 + 5000, fin=1) + head
+        part2 = body2
+    hl = HS_LEN[False]
+    w = H.World(H.hs_server([('raw', part1), ('raw', part2)], HS_PLAIN), cuts=[hl, hl + len(part1)])
+    run = H.drive(w, connect_kwargs=dict(ping_rate=0))
+    names = [n for n in run.names if n != 'poll']
+    acc.count2('e2e', 'failfast_checked')
+    acc.count2('e2e', 'failfast_rest_withheld')
+    key = None
+    if 'text' in names:
+        key = 'invalid-text-delivered'
+    elif 'protocol_error' not in names:
+        key = 'not-fail-fast:error-waits-for-the-rest-of-the-message'
+    if key:
+        acc.violation(key, 'C05 %s: %s, next read %d bytes of ASCII, rest withheld' % (key, case['what'], n2), case,
+                      dict(events=names, end=run.end, exc=run.exc))
+    else:
+        acc.cls('withheld/%s/%d/%s' % (case['what'], n2, case['frag']))
+
+
 def run_case(case, acc):
+    if case.get('kind') == 'withheld':
+        return run_withheld(case, acc)
     k = case['kind']
     if k == 'dfa':
         return run_dfa(case, acc)
